@@ -190,6 +190,26 @@ VP_ENTRY vp_main_quat_from_matrix1() { t_quat_from_matrix<1>(); }
 VP_ENTRY vp_main_quat_from_matrix2() { t_quat_from_matrix<2>(); }
 VP_ENTRY vp_main_quat_from_matrix3() { t_quat_from_matrix<3>(); }
 
+// slerp: the result is a unit quaternion on the great arc from (+-)a to b, the same for a and -a (the same rotation), with the
+// right end points.  sin/cos/acos are related only by s^2+c^2=1 per angle and cos(acos d) = d: enough, because the implementation's
+// weights are fb = sin(t*theta0)/sin(theta0), fa = cos(t*theta0) - d*fb.
+VP_ENTRY vp_main_quat_slerp_id()
+{
+  // towards the identity rotation b = (1,0,0,0), every unit a: unit result and the right end points
+  Q a = nq(); Q b(1.f, 0.f, 0.f, 0.f);
+  vp_assume(qn2(a) == 1.f);
+  float t = nf(); vp_assume(t >= 0.f && t <= 1.f);
+  float d = a.r; float ad = d < 0.f ? -d : d;
+  vp_assume(ad <= 0.9995f);
+  Q r = slerp(t, a, b);
+  EQ(qn2(r), 1.f, "slerp of unit quaternions is a unit quaternion");
+  Q as = d < 0.f ? -a : a;                        // the representative of a on b's side
+  EQQ(slerp(1.f, a, b), b, "slerp(1,a,b) = b");
+  EQQ(slerp(0.f, a, b), as, "slerp(0,a,b) = +-a (the representative on b's side)");
+  if (d != 0.f) EQQ(slerp(t, -a, b), r, "slerp(t,-a,b) = slerp(t,a,b): q and -q are the same rotation (short way round; a.b != 0)");
+  vp_reach("end");
+}
+
 VP_ENTRY vp_main_quat_ypr()
 {
   float yaw = nf(), pitch = nf(), roll = nf();
